@@ -255,7 +255,7 @@ unmangle!(
 
     pub extern "C" fn mz_deflateBound(_stream: *mut mz_stream, source_len: c_ulong) -> c_ulong {
         cmp::max(
-            128 + (source_len * 110) / 100,
+            128 + (source_len * 113) / 100,
             128 + source_len + ((source_len / (31 * 1024)) + 1) * 5,
         )
     }
